@@ -43,6 +43,11 @@ def packages():
         ("two modules + extension, non-ascii", Package([mod("föö", {"k": "väl 世界", "n": [1, 2, {"x": None}]}), mod("g")], [ext])),
         ("extensions only", Package([], [std_logic.EXTENSION, ext])),
     ]
+    # versions with pre-release and build parts (documents are compared, semver equality ignores build metadata)
+    for ver in ("1.2.3-rc.1", "2.0.0+build.5", "0.3.0-alpha.2+exp.sha.5114f85"):
+        e2 = Extension("ver.ext", semver.Version.parse(ver))
+        e2.add_op_def(OpDef("op", description="", signature=OpDefSig(tys.FunctionType([tys.Bool], [tys.Bool]))))
+        out.append((f"extension version {ver}", Package([mod("h")], [e2])))
     return out
 
 
